@@ -54,6 +54,14 @@ def signature_items(c, iid, service_iid, service_uuid):
     return items
 
 
+class GattCollection(list):
+    """What BleakClient.services is to its users: iterable of services, plus the .services mapping."""
+
+    @property
+    def services(self):
+        return dict(enumerate(self))
+
+
 class GattService:
     def __init__(self, uuid, iid, characteristics):
         self.uuid, self.iid, self.characteristics = uuid, iid, characteristics
@@ -77,6 +85,13 @@ class GattChar:
         self.max_write_without_response_size = 0
         self.handle = iid
         self.descriptors = []
+
+    def get_descriptor(self, uuid):
+        """The Characteristic Instance ID descriptor (HAP-BLE 7.4.4.5.1), as bleak presents it."""
+        if self.iid is None:
+            return None
+        import types
+        return types.SimpleNamespace(handle=("iid-descriptor", self))
 
     def __repr__(self):
         return f"GattChar({self.uuid[:8]}, iid={self.iid})"
@@ -255,8 +270,8 @@ class RefBleAccessory:
         if h.kind == "features" and op == OP_READ:
             return 0, tlv_enc([(1, bytes([self.feature_flags]))])
         c = self.chars.get(iid)
-        if c is None:
-            return 4, b""
+        if c is None or (h.kind == "data" and h.iid != iid):
+            return 4, b""           # Invalid Instance ID: unknown, or not the characteristic this GATT handle stands for
         if op == OP_SIG:
             svc = c.get("service", SVC_TEST)
             return 0, tlv_enc(c["signature"] if "signature" in c else signature_items(c, iid, self.service_iids.get(svc, 0), svc))
@@ -384,6 +399,9 @@ class FakeBleClient:
         self.gatt_error_at = None     # raise BleakError at the n-th GATT operation from now
         self.disconnect_delay = 0.0
         self.disconnect_fails = False
+        self._char_cache = {}
+        self._iid_cache = {}
+        self._AIOHomeKitBleakClient__name = address
         self.notify_fail = {}         # iid -> "once" | "always"
         self.notify_calls = []
         self._extra = {}
@@ -415,7 +433,7 @@ class FakeBleClient:
                 extra = self._extra[svc_uuid] = [sid, sig]
                 self.acc.handles.extend(x for x in extra if x.iid is not None and not any(y.iid == x.iid for y in self.acc.handles))
             out.append(GattService(svc_uuid, svc_iid, [extra[0]] + [c for c in chars if c.kind != "svc-sig"] + [extra[1]]))
-        return out
+        return GattCollection(out)
 
     def _by_handle(self, h):
         if isinstance(h, int):
@@ -427,16 +445,17 @@ class FakeBleClient:
         return h
 
     async def get_characteristic(self, service_uuid, char_uuid, iid=None):
-        cands = [h for h in self.acc.handles if h.uuid.lower() == char_uuid.lower() and h.service_uuid.lower() == service_uuid.lower()]
-        if len(cands) == 1:
-            return cands[0]
-        for h in cands:
-            if h.iid == iid:
-                return h
-        raise ValueError(f"fake client: no characteristic {char_uuid} in {service_uuid} (iid {iid})")
+        # the tree's own lookup (aiohomekit/controller/ble/bleak.py: search, disambiguation by instance id, caches) over this link's GATT table
+        from aiohomekit.controller.ble.bleak import AIOHomeKitBleakClient
+        return await AIOHomeKitBleakClient.get_characteristic(self, service_uuid, char_uuid, iid)
 
     async def get_characteristic_iid(self, h):
-        return h.iid
+        from aiohomekit.controller.ble.bleak import AIOHomeKitBleakClient
+        return await AIOHomeKitBleakClient.get_characteristic_iid(self, h)
+
+    async def read_gatt_descriptor(self, handle):
+        kind, ch = handle
+        return bytearray(struct.pack("<H", ch.iid))
 
     @property
     def mtu_size(self):
